@@ -138,7 +138,7 @@ func (db *PgDB) Serve(conn io.ReadWriter) error {
 	portals := map[string]*portal{}
 	failed := false // extended protocol: skip until Sync after an error
 	for {
-		msg, err := be.Receive()
+		msg, err := safeReceive(be.Receive)
 		if err != nil {
 			return err
 		}
@@ -1122,4 +1122,15 @@ func (db *PgDB) execJoin(s *pg_query.SelectStmt, rels []*pg_query.RangeVar, qual
 	}
 	res.tag = fmt.Sprintf("SELECT %d", len(res.rows))
 	return res, nil
+}
+
+// safeReceive turns a panic of the message codec (pgproto3 decodes some malformed messages with unchecked
+// indexes) into a protocol error: the simulated peer drops the connection, as a real one would.
+func safeReceive[T any](recv func() (T, error)) (msg T, err error) {
+	defer func() {
+		if r := recover(); r != nil {
+			err = fmt.Errorf("malformed message: %v", r)
+		}
+	}()
+	return recv()
 }
